@@ -95,15 +95,15 @@ def exprs(draw, typ, n, d, depth, allow_val=True):
         if k == 1:
             return ["sym"]
         if k == 2:
-            return ["T", draw(exprs("m", n, d, depth - 1))]
+            return ["T", draw(exprs("m", n, d, depth - 1, allow_val))]
         if k == 3:
-            return ["matR", draw(exprs("m", n, d, depth - 1)), draw(_mat(d, d))]
+            return ["matR", draw(exprs("m", n, d, depth - 1, allow_val)), draw(_mat(d, d))]
         if k == 4:
-            return ["matL", draw(_mat(d, d)), draw(exprs("m", n, d, depth - 1))]
+            return ["matL", draw(_mat(d, d)), draw(exprs("m", n, d, depth - 1, allow_val))]
         if k == 5:
-            return ["hooke", draw(exprs("m", n, d, depth - 1)), draw(_num(0, 6)), draw(_num(1, 6))]
+            return ["hooke", draw(exprs("m", n, d, depth - 1, allow_val)), draw(_num(0, 6)), draw(_num(1, 6))]
         if k == 6:
-            return ["c4", draw(exprs("m", n, d, depth - 1)), draw(st.integers(0, 99))]
+            return ["c4", draw(exprs("m", n, d, depth - 1, allow_val)), draw(st.integers(0, 99))]
         if k == 7:
             return ["treye", draw(exprs("s", n, d, depth - 1, allow_val))]
         return draw(st.sampled_from([["grad"], ["sym"]]))
@@ -112,16 +112,16 @@ def exprs(draw, typ, n, d, depth, allow_val=True):
         if k <= 1:
             return ["val", draw(st.booleans())]
         if k == 2:
-            return ["dotc", draw(exprs("m", n, d, max(depth - 1, 0))), draw(_vec(d))]
+            return ["dotc", draw(exprs("m", n, d, max(depth - 1, 0), allow_val)), draw(_vec(d))]
         if k == 3:
             return ["matR", draw(exprs("v", n, d, depth - 1, allow_val)), draw(_mat(d, d))]
         return ["matL", draw(_mat(d, d)), draw(exprs("v", n, d, depth - 1, allow_val))]
     assert typ == "s"
     k = draw(st.integers(0, 2))
     if k == 0:
-        return ["tr", draw(exprs("m", n, d, max(depth - 1, 0)))]
+        return ["tr", draw(exprs("m", n, d, max(depth - 1, 0), allow_val))]
     if k == 1:
-        return ["ddotc", draw(exprs("m", n, d, max(depth - 1, 0))), draw(_mat(d, d))]
+        return ["ddotc", draw(exprs("m", n, d, max(depth - 1, 0), allow_val)), draw(_mat(d, d))]
     return ["dotc", draw(exprs("v", n, d, max(depth - 1, 0), allow_val)), draw(_vec(d))]
 
 
